@@ -63,7 +63,7 @@ func c40VerifyHeight(ls *ledgerstore.LedgerStoreImp, r *c40Rec) error {
 		return fmt.Errorf("GetBlockByHeight(%d): block=%v err=%v, a block was committed at this height", h, b != nil, err)
 	}
 	if !sameBytes(b.ToArray(), r.Raw) {
-		return fmt.Errorf("GetBlockByHeight(%d) differs from the committed block:\n got %x\nwant %x", h, b.ToArray(), r.Raw)
+		return fmt.Errorf("GetBlockByHeight(%d) differs from the committed block:\n got %s\nwant %s", h, harn.Hex(b.ToArray()), harn.Hex(r.Raw))
 	}
 	if b.Hash() != r.Hash {
 		return fmt.Errorf("GetBlockByHeight(%d).Hash() = %s, committed %s", h, b.Hash().ToHexString(), r.Hash.ToHexString())
@@ -73,7 +73,7 @@ func c40VerifyHeight(ls *ledgerstore.LedgerStoreImp, r *c40Rec) error {
 		return fmt.Errorf("GetBlockByHash(hash of height %d): block=%v err=%v", h, b2 != nil, err)
 	}
 	if !sameBytes(b2.ToArray(), r.Raw) {
-		return fmt.Errorf("GetBlockByHash(hash of height %d) differs from the committed block:\n got %x\nwant %x", h, b2.ToArray(), r.Raw)
+		return fmt.Errorf("GetBlockByHash(hash of height %d) differs from the committed block:\n got %s\nwant %s", h, harn.Hex(b2.ToArray()), harn.Hex(r.Raw))
 	}
 	hd, err := ls.GetHeaderByHash(r.Hash)
 	if err != nil || hd == nil {
@@ -313,7 +313,7 @@ func TestC40_QueriesAgree(t *testing.T) {
 	ev := harn.For("C40")
 	ev.Rule("chains of 5-40 blocks on a solo ledger; block 1 funds two native and two EVM accounts, every other block carries 0-6 generated txs (ONT/ONG transfers by 4 accounts of 3 key types incl. zero/over-balance/unfunded-payer ones, NeoVM deploy and invoke, EIP-155 transfers incl. below-intrinsic-gas and over-balance ones, EIP-155 creations emitting 0-3 logs that return/revert/fault); the ledger is closed and reopened after generated heights; at each checkpoint (before and after each restart, and before/after a final restart) every height is read through GetBlockHash, GetBlockByHeight, GetBlockByHash, GetHeaderByHash, GetHeaderByHeight, GetRawHeaderByHash, GetTransaction(+height), IsContainBlock/Transaction and compared with the harness's record of the committed bytes; never-committed hashes and heights above the tip must not be found. Non-trivial = chain with a block of >= 2 txs, a failing tx, an EIP-155 tx and a restart followed by further blocks; distinct by the full plan")
 	bk := fix.Key(fix.KP256, 0)
-	harn.Check(t, 40, 1500, func(t *rapid.T) {
+	harn.Check(t, 40, 600, func(t *rapid.T) {
 		nBlocks := rapid.IntRange(5, 40).Draw(t, "blocks")
 		base, err := os.MkdirTemp("", "c40-")
 		if err != nil {
